@@ -550,6 +550,11 @@ def processPublish (s : Server) (i : Nat) (qos : Nat) (dup retain : Bool) (id : 
           else (c, pk)
         | none => (c, pk)
       let s := setObj s i c
+      -- the alias is not bound to a topic on this connection: protocol error
+      if !c.inline && pk.topic.isEmpty then
+        let (s, o) := disconnectClient s i 0x82
+        (s, o, some 0x82)
+      else
       let pk := if pk.qos > s.caps.maximumQos then { pk with qos := s.caps.maximumQos } else pk
       -- OnPublish hook
       let mode := assocGet s.pubHook pk.topic
